@@ -286,62 +286,30 @@ class IndexedCache:
         if isinstance(cache, CacheDict) and not cache:
             return
         keys = self.keys
-        n_keys = len(keys)
         key = keys[key_idx]
+        is_leaf_level = key_idx + 1 == len(keys)
 
-        # Follow the concrete chain as far as it exists without exceptions
-        while key in assignment:
-            next_cache = cache.get(assignment[key])
-            if next_cache is None:
-                # Try wildcard branch at this level
-                wildcard = cache.get(All)
-                if wildcard is not None:
-                    yield from self._yield_result(assignment, wildcard, key_idx, result)
-                else:
-                    self.search_count += 1
-                return
-            cache = next_cache
-            if key_idx + 1 < n_keys:
-                key_idx += 1
-                key = keys[key_idx]
-            else:
-                break
-
-        if key not in assignment:
-            # Prefer wildcard branch if available
-            wildcard = cache.get(All)
-            if wildcard is not None:
-                yield from self._yield_result(assignment, wildcard, key_idx, result)
-            else:
-                # Explore all branches at this level, copying only the minimal delta
-                for cache_key, cache_val in cache.items():
-                    local_result = copy(result)
-                    local_result[key] = cache_key
-                    yield from self._yield_result(assignment, cache_val, key_idx, local_result)
+        if key in assignment:
+            # An entry matches when it has the looked-up value at this key or leaves the key open.
+            branches = [(name, cache[name]) for name in dict.fromkeys((assignment[key], All)) if name in cache]
         else:
-            # Reached the leaf (value or next dict) specifically specified by assignment
-            yield result, cache
+            # Every entry matches at a key the lookup leaves open; a concrete value is added to the resolved assignment.
+            branches = list(cache.items())
+        for name, node in branches:
+            local_result = result
+            if key not in assignment and name is not All:
+                local_result = copy(result)
+                local_result[key] = name
+            if is_leaf_level:
+                yield local_result, node
+            else:
+                self.search_count += 1
+                yield from self.retrieve(assignment, node, key_idx + 1, local_result)
 
     def clear(self):
         self.cache.clear()
         self.seen_set.clear()
         self.flat_cache.clear()
-
-    def _yield_result(self, assignment: Dict, cache_val: Any, key_idx: int, result: Dict[int, Any]):
-        """
-        Internal helper to descend into cache and yield concrete results.
-
-        :param assignment: Original partial assignment.
-        :param cache_val: Current cache node or value.
-        :param key_idx: Current key index.
-        :param result: Accumulated assignment.
-        :return: Yields (assignment, value) when reaching leaves.
-        """
-        if isinstance(cache_val, CacheDict):
-            self.search_count += 1
-            yield from self.retrieve(assignment, cache_val, key_idx + 1, result)
-        else:
-            yield result, cache_val
 
 
 def yield_class_values_from_cache(cache: Dict[Type, IndexedCache], clazz: Type,
